@@ -463,6 +463,29 @@ def t10_flav(run, fx):
         run.anchor_missing(rule, "OpenTypeData literals under the magic arms (found %d)" % n)
 
 
+def t10_tags(run, fx, floors=True):
+    """the tags offered are all the tags of the directory"""
+    rule = "T10-TAGS"
+    run.rule(rule, "FontTableProvider::table_tags lists every table of the font's directory: the list is built from the directory (records, entries, map "
+                   "keys) by projection alone - no adaptor that drops or limits elements (filter, filter_map, skip, take, step_by, take_while, skip_while, "
+                   "dedup, retain) stands between the directory and the result, in any provider")
+    dropping = ("Iterator::filter", "Iterator::filter_map", "Iterator::skip", "Iterator::take", "Iterator::step_by", "Iterator::take_while",
+                "Iterator::skip_while", "Iterator::flatten", "::retain", "::dedup", "::truncate", "::pop", "::remove", "::swap_remove", "::drain")
+    n = 0
+    for b in fx.bodies:
+        if b.kind == "Closure" or not re.search(r" as tables::FontTableProvider>::table_tags$", b.path):
+            continue
+        n += 1
+        bad = sorted({(t["callee"].get("path") or "").split("::")[-1] for _, t in b.calls() if (t["callee"].get("path") or "").endswith(dropping)})
+        if bad:
+            run.fail(rule, "tags-dropped|%s" % b.path.split(" as ")[0].lstrip("<").split("<")[0], "%s builds the tag list through %s: a table of the directory can be "
+                     "missing from the tags although has_table and table_data serve it" % (b.path, ", ".join(bad)), "%s:%s" % (b.file, b.line))
+        else:
+            run.ok(rule, "%s: projection of the directory" % b.path.split(" as ")[0].lstrip("<"))
+    if floors:
+        run.floor(rule, "table_tags implementations", n, 5)
+
+
 def check(run, fx, tier, floors=True):
     import speclayout
     speclayout.rule_layouts(run, fx, "T10-LAYOUT", ["container", "woff2"], floors)
@@ -470,6 +493,7 @@ def check(run, fx, tier, floors=True):
     t10_idx(run, fx, floors)
     t10_find(run, fx, floors)
     t10_sib(run, fx, floors)
+    t10_tags(run, fx, floors)
     t10_woff(run, fx)
     t10_magic(run, fx, floors)
     if floors or any(b.path.startswith("<tables::OpenTypeFont<") for b in fx.bodies):
